@@ -10,7 +10,7 @@ from ..common import CAP, hx, key_family, pick, rand_key, run_cases, sk, unhx
 
 ID = "C01"
 LEVEL = "exploration"
-TECHNIQUE = "ghost-state monitor: exact per-key counters kept beside each real sketch (merge = sum, load = copy); two-sided invariant evaluated for every key of the universe after every event; cell sharing read off probe sketches; exhaustive DFS over small histories with state memoisation"
+TECHNIQUE = "ghost-state monitor: exact per-key counters kept beside each real sketch (merge = sum, load = copy); two-sided invariant evaluated for every key of the universe after every event; cell sharing read off probe sketches; exhaustive DFS over small histories with state memoisation; thread stress with long kernel calls (several threads each filling their own sketch of one shape, compared with sequentially built twins)"
 RULE = ("case = (width, depth, up to 4 sketches, event list of add/update/add_ngram/update_ngram/merge/save+load) with widths 1..64 "
         "(70% <= 3) and multiplicities incl. 0, values adjacent to 2^32-1 and 2^40; or one exhaustive enumeration of all event "
         "sequences up to a length bound over a 3-key alphabet on two sketches; non-trivial = two distinct keys of the case share a "
@@ -299,6 +299,9 @@ def run_rowpair(case, ctx, mon):
 
 def gen_cases(ctx):
     rng = ctx.rng("cases")
+    # threads that each fill their OWN linear sketch (one shape) through long calls: see vmon/thread_common.py (round 8, seed C01-N)
+    for rep in range(2 if ctx.quick else 5):
+        yield {"type": "threads_own", "kind": "linear", "threads": 6, "seed": 1000 + rep + 17 * ctx.shard}
     for r in range(4):
         for vals in ((40000, 40000), (65535, 1), (200, 100), (2**24 - 1, 2), (2**31 - 5, 2**31 - 5), (65535, 65535)):
             yield {"type": "rowpair", "width": pick(rng, [3, 5, 8]), "depth": max(r + 1, pick(rng, [2, 4])), "row": r, "values": list(vals),
@@ -324,7 +327,11 @@ def gen_cases(ctx):
 
 
 def run_case(case, ctx, mon):
-    if case["type"] == "history":
+    if case["type"] == "threads_own":
+        from .. import thread_common
+
+        thread_common.run_own_sketches(case, mon)
+    elif case["type"] == "history":
         run_history(case, ctx, mon)
     elif case["type"] == "zipf":
         run_zipf(case, ctx, mon)
